@@ -448,8 +448,20 @@ func randomCase(r *rand.Rand, salt int64) *caseSpec {
 		if r.Intn(10) != 0 {
 			cs.Ops = append(cs.Ops, opSpec{Op: "Scan"})
 		}
+		stale := "" // content the last scan recorded for a file that was rewritten since
 		if r.Intn(4) == 0 {
 			extEdit() // between scan and stage: breaks from-root copies / creates unknown files
+		} else if ps := existing(); len(ps) > 0 && r.Intn(6) == 0 {
+			// stale copy source: a scanned file is rewritten, and this cycle's plan asks for the
+			// content the scan saw there (the from-root copy reads other bytes than the digest names)
+			p := ps[r.Intn(len(ps))]
+			stale = sim[p]
+			c := pickContent()
+			if c == stale {
+				c = "c4x"
+			}
+			sim[p] = c
+			cs.Ops = append(cs.Ops, opSpec{Op: "ExtWrite", Path: strings.Split(p, "/"), C: c})
 		}
 		// the plan of this cycle
 		type planned struct {
@@ -460,6 +472,9 @@ func randomCase(r *rand.Rand, salt int64) *caseSpec {
 		nreq := r.Intn(4)
 		ps := existing()
 		usedDir := false
+		if stale != "" {
+			plan = append(plan, planned{path: fresh(), content: stale})
+		}
 		for k := 0; k < nreq; k++ {
 			var c string
 			if len(ps) > 0 && r.Intn(2) == 0 {
